@@ -325,3 +325,122 @@ theorem max_part_unchecked_cex :
      | _ => false) = true := by decide
 
 end OdcGeo.C06
+
+namespace OdcGeo.C06
+variable {α : Type}
+
+/-! ### a merge that wrote is not repeatable: the general statements -/
+
+/-- in the branch "right side has not written" the left input's parts list grows by exactly the parts the task wrote -/
+theorem mergePost_unstarted_lhs_parts (w : Option Writer) (spill : Nat) (l r : Chunk α) (p : MergePost α)
+    (h : mergeAndSpillPost w spill l r = .ok p) (hr : r.started = false) :
+    p.lhsAfter.parts = l.parts ++ p.writes ∧ p.rhsAfter = r := by
+  unfold mergeAndSpillPost at h
+  cases hm : mergeAndSpill w spill l r with
+  | error e => simp [hm] at h
+  | ok q =>
+    obtain ⟨m, ws⟩ := q
+    simp only [hm, hr, Bool.not_false, if_true, Except.ok.injEq] at h
+    subst h
+    exact ⟨rfl, rfl⟩
+
+/-- **Right side has not written and the task wrote something (a spill): the task is NOT repeatable** — whatever the
+second execution on the same objects does, it cannot reproduce the first (the left input already carries the part). -/
+theorem merge_not_repeatable_after_spill (w : Option Writer) (spill : Nat) (l r : Chunk α) (p1 : MergePost α)
+    (h : mergeAndSpillPost w spill l r = .ok p1) (hr : r.started = false) (hw : p1.writes ≠ []) :
+    mergeAndSpillPost w spill p1.lhsAfter p1.rhsAfter ≠ .ok p1 := by
+  intro h2
+  obtain ⟨hp1, hr1⟩ := mergePost_unstarted_lhs_parts w spill l r p1 h hr
+  have hr' : p1.rhsAfter.started = false := by rw [hr1]; exact hr
+  obtain ⟨hp2, _⟩ := mergePost_unstarted_lhs_parts w spill p1.lhsAfter p1.rhsAfter p1 h2 hr'
+  have : p1.writes = [] := by
+    have := hp2
+    exact List.append_right_eq_self.mp this.symm
+  exact hw this
+
+/-- `flush_rhs` on a section that has written either fails or uses up a part number -/
+theorem flushRhs_started_next (w : Option Writer) (c c' : Chunk α) (extra : List α) (ws : List (Part α))
+    (hs : c.started = true) (h : flushRhs w c extra = .ok (c', ws)) : c'.next = c.next + 1 ∧ c'.parts ≠ [] := by
+  unfold flushRhs at h
+  simp only [hs, if_true] at h
+  cases w with
+  | none => simp at h
+  | some W =>
+    simp only at h
+    split at h
+    · unfold flushData at h
+      split at h
+      · simp at h
+      · simp only [Except.ok.injEq, Prod.mk.injEq] at h
+        rw [← h.1]
+        exact ⟨rfl, by simp⟩
+    · simp at h
+
+/-- **Right side has written and the merge flushed the left side (the left input is a started section afterwards): NOT
+repeatable** — a second execution fails, or sends the right side's `left_data` again under the NEXT part number
+(the left input's part counter moves on by one). -/
+theorem merge_not_repeatable_after_flush (w : Option Writer) (spill : Nat) (l r : Chunk α) (p1 p2 : MergePost α)
+    (h : mergeAndSpillPost w spill l r = .ok p1) (hr : r.started = true) (hl : p1.lhsAfter.started = true)
+    (h2 : mergeAndSpillPost w spill p1.lhsAfter p1.rhsAfter = .ok p2) :
+    p2.lhsAfter.next = p1.lhsAfter.next + 1 ∧ p2 ≠ p1 := by
+  -- the right input is untouched
+  have hr1 : p1.rhsAfter = r := by
+    unfold mergeAndSpillPost at h
+    cases hm : mergeAndSpill w spill l r with
+    | error e => simp [hm] at h
+    | ok q =>
+      obtain ⟨m, ws⟩ := q
+      simp only [hm, hr, Bool.not_true, Bool.false_eq_true, if_false] at h
+      cases hf : flushRhs w l r.left with
+      | error e => simp [hf] at h
+      | ok q2 =>
+        obtain ⟨l', _⟩ := q2
+        simp only [hf, Except.ok.injEq] at h
+        subst h; rfl
+  have hnext : p2.lhsAfter.next = p1.lhsAfter.next + 1 := by
+    unfold mergeAndSpillPost at h2
+    cases hm : mergeAndSpill w spill p1.lhsAfter p1.rhsAfter with
+    | error e => simp [hm] at h2
+    | ok q =>
+      obtain ⟨m, ws⟩ := q
+      have hrs : p1.rhsAfter.started = true := by rw [hr1]; exact hr
+      simp only [hm, hrs, Bool.not_true, Bool.false_eq_true, if_false] at h2
+      cases hf : flushRhs w p1.lhsAfter p1.rhsAfter.left with
+      | error e => simp [hf] at h2
+      | ok q2 =>
+        obtain ⟨l'', ws''⟩ := q2
+        simp only [hf, Except.ok.injEq] at h2
+        subst h2
+        exact (flushRhs_started_next w p1.lhsAfter l'' _ ws'' hl hf).1
+  refine ⟨hnext, ?_⟩
+  intro he
+  rw [he] at hnext
+  omega
+
+/-! ### the finaliser executed twice -/
+
+/-- **with a footer the finaliser is not repeatable**: the footer was appended to the root itself; executed again the
+callback sees the footer's `(size, None)` entry in the observed list and the footer goes into the stream a second time.
+Witness: one section `[1,2,3]` + footer `[9]`: first object `[1,2,3,9]`, second `[1,2,3,9,9]`. -/
+theorem finalizer_twice_footer_cex :
+    (match finalizerTwice (some ⟨1, 1, 100⟩) ({ (mkChunk 2 1 false 1 : Chunk Nat) with data := [1, 2, 3], observed := [(3, 0)] })
+        none (some fun _ => [9]) with
+     | .ok (p1, .ok p2) =>
+       (match p1.out, p2.out with
+        | .written _ f1, .written _ f2 => partsBytes f1 == [1, 2, 3, 9] && partsBytes f2 == [1, 2, 3, 9, 9] &&
+            p2.rootAfter.observed == [(3, 0), (1, -1), (1, -1)]
+        | _, _ => false)
+     | _ => false) = true := by decide
+
+/-- **without header and footer the finaliser flushes the root in place**: executed again there is nothing left to write
+and `finalise` gets the same list once more (the upload is completed twice) -/
+theorem finalizer_twice_plain :
+    (match finalizerTwice (some ⟨1, 1, 100⟩) ({ (mkChunk 2 1 true 1 : Chunk Nat) with data := [1, 2, 3], observed := [(3, 0)] })
+        none none with
+     | .ok (p1, .ok p2) =>
+       (match p1.out, p2.out with
+        | .written w1 f1, .written w2 f2 => w1.map (·.id) == [1] && w2.map (·.id) == [] && f1 == f2 && p2.rootAfter.data == []
+        | _, _ => false)
+     | _ => false) = true := by decide
+
+end OdcGeo.C06
